@@ -1,5 +1,5 @@
 #!/bin/bash
-# Self-test of the bounded back end: seeded mutants of the code under test must
+# Self-test of the bounded back end: seeded mutants (m1..m10) of the code under test must
 # be caught (exit 1 + BOUNDED-FAIL + REPLAY) by the named properties, the replay
 # file must still fail on the mutant and pass on the clean tree, and an
 # unmodified copy must pass.  Every mutant is applied to a scratch copy
@@ -27,6 +27,7 @@ m6|C04|revert of the getGEPath guard fix (D2)
 m7|C07|compatibleVersions additionally accepts ==2.0.0
 m8|C15 C12|I64.Decode truncates through int32
 m9|C11|revert of a0f1d92: lookups call bitstr.StrCmpUpto again (panics in goroutines under -race)
+m10|C06|before000510ToNewChildrenArray treats an empty children array as an empty trie (single-key pre-0.5.10 streams load empty; no archived fixture has one key, caught by D-legacy-emul3)
 '
 
 apply_mutant() { # $1 = id, $2 = scratch dir
@@ -61,6 +62,9 @@ elif mid == "m8":
     edit("encode/int.go", "d := int64(binary.LittleEndian.Uint64(s))", "d := int64(int32(binary.LittleEndian.Uint64(s)))")
 elif mid == "m9":
     edit("trie/slimtrie_query.go", "\tif n := len(b) - 1; n >= 0 && len(a) > n {\n\t\ta = a[:n]\n\t}\n\treturn bitstr.CmpUpto([]byte(a), b)", "\treturn bitstr.StrCmpUpto(a, b)")
+elif mid == "m10":
+    edit("trie/slimtrie_marshal.go", "\t\t// rebuild inner\n\n\t\ttype eltType struct {",
+         "\t\t// rebuild inner\n\n\t\tif ch.Cnt == 0 {\n\t\t\tst.inner = &Slim{}\n\t\t\tst.init()\n\t\t\treturn\n\t\t}\n\n\t\ttype eltType struct {")
 else:
     sys.stderr.write("unknown mutant %s\n" % mid); sys.exit(3)
 PY
